@@ -162,8 +162,9 @@ def contract_panickers(prog):
 
 
 _src_cache = {}
-def src_line(file, line, repo="/repo"):
-    p = file if os.path.isabs(file) else os.path.join(repo, file)
+def src_line(file, line, repo=None):
+    from .facts import REPO
+    p = file if os.path.isabs(file) else os.path.join(repo or REPO, file)
     if p not in _src_cache:
         try:
             with open(p, errors="replace") as fh:
